@@ -35,3 +35,17 @@ func TestCalibrate(t *testing.T) {
 		t.Fail()
 	}
 }
+
+func TestCalibrateTxValid(t *testing.T) {
+	n, ok, bad, err := CalibrateTxValid()
+	if err != nil {
+		t.Fatal(err)
+	}
+	t.Logf("tx_valid inputs=%d agreed=%d", n, ok)
+	for _, b := range bad {
+		t.Log(b)
+	}
+	if n != ok || n == 0 {
+		t.Fail()
+	}
+}
